@@ -85,3 +85,9 @@ package xsync
 //@   ensures never-drops-live: forall j K :: old(has(s.items, j)) && !has(s.items, j) ==> old(s.order[s.items[j]].expireAt) <= clock
 //@   ensures no-revival: forall j K :: has(s.items, j) ==> old(has(s.items, j)) && s.items[j] == old(s.items[j])
 //@   modifies map(K,int)
+
+// ---------------------------------------------------------------------------
+//@ property C16
+// the generic Map's table is touched only by its own methods (backs the
+// "preserve Map.data" frame assumption of the reentrancy bookkeeping contracts)
+//@ structural mapwriters Map.data: NewMap, (*Map).Set, (*Map).Delete, (*Map).LoadAndDelete, (*Map).Reset
